@@ -449,6 +449,11 @@ class SRatio:
             r = SRatio.make(s.n * oz, z3.IntVal(1))
             if r is not None:
                 return r
+        if isinstance(o, int) and not isinstance(o, bool) and o > 0 and (o & (o - 1)) == 0:
+            # multiplying a double by a power of two is exact: fl(n/d) * 2**k == fl(2**k * n / d)
+            r = SRatio.make(s.n * o, s.d)
+            if r is not None:
+                return r
         if isinstance(o, (SInt, SRatio)):
             o = float(o)
         return s._float() * o
